@@ -37,3 +37,8 @@ VARIANTS = [
     # repairing D3 removes the known finding without any new alarm
     v("c04-twin-fix-d3", LC, "        elif lc <= 0.5:\n            llas = np.arange(0, 3.2, 0.2, dtype=float64)\n        else:\n            llas = np.arange(-1, 1.2, 0.2, dtype=float64)\n", "        else:\n            llas = np.arange(0, 3.2, 0.2, dtype=float64)\n", expect="silent"),
 ]
+
+VARIANTS += [
+    v("c04-p-half", A, "            if p:\n                ds_out, sgrid = xarray.apply_ufunc(\n                    ops.ws2doptvp,", "            if p and p != 0.5:\n                ds_out, sgrid = xarray.apply_ufunc(\n                    ops.ws2doptvp,", names="kernel selection", note="seeded C04a"),
+    v("c04-twin-p-notnone", A, "            if p:\n                ds_out, sgrid = xarray.apply_ufunc(\n                    ops.ws2doptvp,", "            if p is not None:\n                ds_out, sgrid = xarray.apply_ufunc(\n                    ops.ws2doptvp,", expect="silent"),
+]
